@@ -11,6 +11,13 @@ PROGS = {
     "regex-literal": ('let v = W { s: "abc".to_string() };', 'v, W { s: =~ "a.c" }', True, False),
     "string-like-impl": ('let v = W { s: "abc".to_string() }; let pat = "a.c".to_string();', 'v, W { s: =~ pat }', True, False),
     "no-regex-at-all": ('let v = W { s: "abc".to_string() };', 'v, W { s: "abc" }', True, True),
+    # user impls on the user's own string-like type (it implements AsRef<str>, Deref<Target = str>, Display): the built-in impls must not get in their way
+    "user-like-str-on-stringlike-type": ('#[derive(Debug)] struct Name(String); impl AsRef<str> for Name { fn as_ref(&self) -> &str { &self.0 } } impl std::ops::Deref for Name { type Target = str; fn deref(&self) -> &str { &self.0 } } impl std::fmt::Display for Name { fn fmt(&self, f: &mut std::fmt::Formatter) -> std::fmt::Result { f.write_str(&self.0) } } impl assert_struct::Like<&str> for Name { fn like(&self, p: &&str) -> bool { self.0.starts_with(*p) } } #[derive(Debug)] struct U { n: Name } let v = U { n: Name("abc".to_string()) }; let pre: &str = "ab";',
+                                         'v, U { n: =~ pre }', True, True),
+    "user-like-string-on-stringlike-type": ('#[derive(Debug)] struct Name(String); impl AsRef<str> for Name { fn as_ref(&self) -> &str { &self.0 } } impl std::borrow::Borrow<str> for Name { fn borrow(&self) -> &str { &self.0 } } impl assert_struct::Like<String> for Name { fn like(&self, p: &String) -> bool { self.0.starts_with(p.as_str()) } } #[derive(Debug)] struct U { n: Name } let v = U { n: Name("abc".to_string()) }; let pre: String = "ab".to_string();',
+                                            'v, U { n: =~ pre }', True, True),
+    "user-like-generic-pattern": ('#[derive(Debug)] struct Name(String); struct Starts<T>(T); impl<T: AsRef<str>> assert_struct::Like<Starts<T>> for Name { fn like(&self, p: &Starts<T>) -> bool { self.0.starts_with(p.0.as_ref()) } } impl<T: AsRef<str>> assert_struct::Like<Starts<T>> for String { fn like(&self, p: &Starts<T>) -> bool { self.starts_with(p.0.as_ref()) } } #[derive(Debug)] struct U { n: Name, s: String } let v = U { n: Name("abc".to_string()), s: "abc".to_string() };',
+                                  'v, U { n: =~ Starts("ab"), s: =~ Starts("ab".to_string()) }', True, True),
     # a regex literal stays a regex literal: without the feature it is rejected even where a user impl could give it another meaning
     "regex-literal-user-like-str": ('#[derive(Debug)] struct Tag(String); impl assert_struct::Like<&str> for Tag { fn like(&self, p: &&str) -> bool { self.0.starts_with(*p) } } let v = Tag("abc".to_string());',
                                     'v, =~ "a.c"', None, False),
